@@ -35,7 +35,7 @@ def targets():
         mk('aqua_est_acc', A, lambda P, v: F(P).AQUA().estimate(v.vec(*A))),
         mk('aqua_est_am', A + M, lambda P, v: F(P).AQUA().estimate(v.vec(*A), v.vec(*M))),
         mk('fourati', Q + G + A + M, lambda P, v: F(P).Fourati(magnetic_dip=[0.0, 0.6, 0.0, 0.8]).update(v.vec(*Q), v.vec(*G), v.vec(*A), v.vec(*M))),
-        mk('roleq', Q + G + A + M, lambda P, v: F(P).ROLEQ(magnetic_ref=list(MREF3)).update(v.vec(*Q), v.vec(*G), v.vec(*A), v.vec(*M))),
+        mk('roleq', Q + G + A + M, lambda P, v: F(P).ROLEQ(magnetic_ref=list(MREF3), weights=np.ones(2)).update(v.vec(*Q), v.vec(*G), v.vec(*A), v.vec(*M))),
         mk('angular_closed', Q + G, lambda P, v: F(P).AngularRate().update(v.vec(*Q), v.vec(*G))),
         mk('angular_series1', Q + G, lambda P, v: F(P).AngularRate().update(v.vec(*Q), v.vec(*G), method='series', order=1)),
         mk('angular_series2', Q + G, lambda P, v: F(P).AngularRate().update(v.vec(*Q), v.vec(*G), method='series', order=2)),
